@@ -143,6 +143,9 @@ impl Sut for LI {
         let ix = [1u64, 1, 1, 1, 0, 2, 2, 3][rng.below(8)];
         Some(match role {
             1 => Cmd::new("delete", vec![4, ix]),
+            // local tail of a template: runs of inserts at neighbouring positions, deletes in between
+            r if r >= 32 => Cmd::new("delete", vec![4, (r - 32) as u64]),
+            r if r >= 16 => Cmd::new("insert", vec![4, (r - 16) as u64]),
             _ => Cmd::new("insert", vec![4, ix]),
         })
     }
